@@ -423,6 +423,8 @@ type boundsFn struct {
 	floorAfter token.Pos
 	floorSites int
 	floorBad   string
+	// boolean locals modelled as −1/0 integers
+	flags map[types.Object]bool
 	// call-site preconditions: what this function's callers guarantee about its
 	// integer and string parameters (differences between them and constants), and
 	// what it guarantees at its own calls of package functions
@@ -575,6 +577,11 @@ func (b *boundsFn) bottom() *zone { return bottomZone(b.n, b.pv) }
 func isStringT(t types.Type) bool {
 	bt, ok := t.Underlying().(*types.Basic)
 	return ok && bt.Info()&types.IsString != 0
+}
+
+func isBoolT(t types.Type) bool {
+	bt, ok := t.Underlying().(*types.Basic)
+	return ok && bt.Info()&types.IsBoolean != 0
 }
 
 func isIntT(t types.Type) bool {
@@ -859,6 +866,17 @@ func (b *boundsFn) refine(z *zone, cond ast.Expr, truth bool) *zone {
 	}
 	info := b.p.Info
 	switch x := cond.(type) {
+	case *ast.Ident:
+		if o := identObj(info, x); o != nil && b.flags[o] {
+			nz := z.clone()
+			v := b.intVar[o]
+			if truth {
+				nz.add(v, 0, -1) // flag ≤ −1: true
+			} else {
+				nz.add(0, v, 0) // flag ≥ 0: false
+			}
+			return nz
+		}
 	case *ast.ParenExpr:
 		return b.refine(z, x.X, truth)
 	case *ast.UnaryExpr:
@@ -949,7 +967,8 @@ func (b *boundsFn) refine(z *zone, cond ast.Expr, truth bool) *zone {
 			}
 		}
 		return z
-	case *ast.Ident:
+	}
+	if _, isId := cond.(*ast.Ident); isId {
 		return z
 	}
 	b.checkExpr(z, cond)
@@ -1065,6 +1084,32 @@ func (b *boundsFn) assignTo(z *zone, lhs ast.Expr, rhs ast.Expr, multi int) {
 	info := b.p.Info
 	o := identObj(info, lhs)
 	if o == nil || z.isBot() {
+		return
+	}
+	if v, ok := b.intVar[o]; ok && b.flags[o] {
+		// flag := condition — the two outcomes are kept apart (−1 where it holds, 0 where not)
+		if rhs == nil || multi >= 0 {
+			z.forget(v)
+			z.add(0, v, 1)
+			z.add(v, 0, 0)
+			return
+		}
+		if tv, isConst := info.Types[rhs]; isConst && tv.Value != nil {
+			if bv, ok := constBool(info, rhs); ok {
+				if bv {
+					z.assign(v, 0, -1)
+				} else {
+					z.assign(v, 0, 0)
+				}
+				return
+			}
+		}
+		zt := b.refine(z, rhs, true)
+		zf := b.refine(z, rhs, false)
+		zt.assign(v, 0, -1)
+		zf.assign(v, 0, 0)
+		j := zjoin(zt, zf)
+		*z = *j
 		return
 	}
 	if v, ok := b.intVar[o]; ok {
@@ -1630,6 +1675,17 @@ func (p *Pkg) analyseBoundsPre(fd *ast.FuncDecl, obj types.Object, floor int64, 
 			return
 		}
 		switch {
+		case isBoolT(o.Type()):
+			// a boolean flag (`last := end < 0`): modelled as −1 (true) / 0 (false) so that it
+			// can serve as the partition variable
+			if _, ok := b.intVar[o]; !ok {
+				b.intVar[o] = b.n
+				b.n++
+				if b.flags == nil {
+					b.flags = map[types.Object]bool{}
+				}
+				b.flags[o] = true
+			}
 		case isIntT(o.Type()):
 			if _, ok := b.intVar[o]; !ok {
 				b.intVar[o] = b.n
@@ -1734,10 +1790,32 @@ func (p *Pkg) analyseBoundsPre(fd *ast.FuncDecl, obj types.Object, floor int64, 
 		})
 		best := token.NoPos
 		for o := range negAssigned {
-			if idx, ok := b.intVar[o]; ok && tested[o] {
+			if idx, ok := b.intVar[o]; ok && tested[o] && !b.flags[o] {
 				if best == token.NoPos || o.Pos() < best {
 					best = o.Pos()
 					b.pv = idx
+				}
+			}
+		}
+		if b.pv == 0 {
+			// no integer sentinel: the first boolean flag that is tested by an if
+			for o := range b.flags {
+				used := false
+				ast.Inspect(fd.Body, func(n ast.Node) bool {
+					if ifs, ok := n.(*ast.IfStmt); ok {
+						c := ast.Unparen(ifs.Cond)
+						if u, ok := c.(*ast.UnaryExpr); ok && u.Op == token.NOT {
+							c = ast.Unparen(u.X)
+						}
+						if identObj(info, c) == o {
+							used = true
+						}
+					}
+					return true
+				})
+				if used && (best == token.NoPos || o.Pos() < best) {
+					best = o.Pos()
+					b.pv = b.intVar[o]
 				}
 			}
 		}
